@@ -596,6 +596,17 @@ def r8(prog, ev, rep):
                     pushed = [pushed[0].a[2][0][1]]
         good = bool(pushed) and all(inner_ok(x) for x in pushed)
         rep.check(good, "C05-R8", key + "/operands", where, inner_desc, "operands pushed are %s" % [str(x) for x in pushed])
+        # the connective is built from exactly that operand list: nothing regroups, flattens, filters or reorders it on the way
+        from vflib.terms import elements_of
+        payload = cons[0].a[2][0][1]
+        direct = bool(elements_of(payload))
+        if not direct:
+            v = payload.a[0] if payload.k == "try" else payload
+            direct = v.k == "call" and v.a[0].endswith("Iterator::collect") and v.a[1].k == "call" and v.a[1].a[0].endswith("Iterator::map") \
+                and v.a[1].a[1].k == "call" and v.a[1].a[1].a[0].endswith("into_inner")
+        rep.check(direct, "C05-R8", key + "/operand-list", where, "Filter::%s(the collected operands)" % variant,
+                  "the operands of `%s` pass through `%s` before the connective is built: regrouping or flattening parenthesised "
+                  "sub-expressions changes what `(a || b) && c` means" % ("||" if variant == "Or" else "&&", str(payload)[:160]))
         # iteration source: children of the rule in order
         srcs = [x for x in subterms(cons[0]) if x.k == "call" and x.a[0] == "<item>"]
         if not srcs:
